@@ -20,6 +20,6 @@ META = dict(
     ],
     HANG_IS_VIOLATION=True,
     BUDGET={"quick": 55.0, "thorough": 1200.0},
-    CASE_TIMEOUT={"quick": 30, "thorough": 60},
+    CASE_TIMEOUT={"quick": 90, "thorough": 180},
     SHIM=True,
 )
